@@ -80,6 +80,18 @@ Section P.
       In (autoid (r_ftype f) (auto_get (r_ftype f) (m_mem s) + 1)) (ids st') /\
       auto_get (r_ftype f) (s_auto st') = auto_get (r_ftype f) (m_mem s) + 1.
   Proof. exact (l_update_continues_numbering call). Qed.
+  (* numbering continues across updates AND reopenings: over every history the persisted counters only
+     grow (base by base) and never run ahead of the open object's counters, so a number once written to
+     the autoincrements table is never handed out again *)
+  Theorem C10_counters_monotone : forall ops s, cle (s_auto (m_disk s)) (m_mem s) ->
+    cle (s_auto (m_disk (run call s ops))) (m_mem (run call s ops)) /\
+    cle (s_auto (m_disk s)) (s_auto (m_disk (run call s ops))).
+  Proof. exact (l_history_counters call). Qed.
+
+  (* every generated id draws from a counter that only moves up *)
+  Theorem C10_step_counters_up : forall strat force spec st f st',
+    step_gff call strat force spec st f = Ok st' -> cle (s_auto st) (s_auto st').
+  Proof. exact (step_gff_cle call). Qed.
 End P.
 Print Assumptions C10_delete_rows.
 Print Assumptions C10_delete_rels.
@@ -93,3 +105,5 @@ Print Assumptions C10_failed_populate_atomic.
 Print Assumptions C10_reopen.
 Print Assumptions C10_ids_unique.
 Print Assumptions C10_continues_numbering.
+Print Assumptions C10_counters_monotone.
+Print Assumptions C10_step_counters_up.
